@@ -42,7 +42,11 @@ def menu(names, pairs):
     refs = list(names) + [UNDEF]
     for n in refs:
         m += ['rule:%s' % n, 'not rule:%s' % n, 'rule:%s and role:x' % n,
-              'rule:%s or role:y' % n]
+              'rule:%s or role:y' % n,
+              # an or-chain whose last operand is the reference, then 'and':
+              # inlining an or-shaped definition here exercises the
+              # or/and reducer on a parenthesised group
+              'role:x or role:y or rule:%s and role:x' % n]
     if pairs:
         for n, k in itertools.permutations(refs, 2):
             m += ['rule:%s and rule:%s' % (n, k)]
